@@ -59,7 +59,10 @@ func (dec *Decoder) readObject(structInfo structInfo) interface{} {
 // ReadObject reads object and add reference.
 func (dec *Decoder) ReadObject() interface{} {
 	index := dec.ReadInt()
-	structInfo := dec.getStructInfo(index)
+	structInfo, ok := dec.getStructInfo(index)
+	if !ok {
+		return nil
+	}
 	if structInfo.fields == nil {
 		return dec.readObjectAsMap(structInfo)
 	}
@@ -87,7 +90,10 @@ func (valdec *structDecoder) decodeField(dec *Decoder, ptr unsafe.Pointer, name 
 
 func (valdec *structDecoder) decodeObject(dec *Decoder, p interface{}) {
 	index := dec.ReadInt()
-	structInfo := dec.getStructInfo(index)
+	structInfo, ok := dec.getStructInfo(index)
+	if !ok {
+		return
+	}
 	dec.AddReference(p)
 	ptr := reflect2.PtrOf(p)
 	for _, name := range structInfo.names {
